@@ -339,7 +339,7 @@ CHECKS = {
             "PTS/PCR times and the PMT descriptors as the muxer wrote them' is a named contract, exercised only by the TS-level oracle "
             "suites; the standard's tables in Model/TtxStd.v are written from memory of ETS 300 706 (no copy in the sandbox; positions not "
             "known with confidence - Turkish 2/3, punctuation columns of Cyrillic/Greek, Arabic and Hebrew sets, which the library does "
-            "not implement - are left unasserted) and are a trusted input; PES-level noise (no time, other identifier, empty payload, truncated last unit) and PID detection are harness-only; "
+            "not implement - are left unasserted) and are a trusted input; PID detection and other PIDs are harness-only; "
             "attributes or a start box after the end box, repeated rows in one instance and a row whose only start box is destroyed by a "
             "parity error are modelled and value-compared but outside the stream theorem's class (notes/C06.md); every theorem of Properties/C06.v is closed under the global context."),
     "C20": (True,
